@@ -32,12 +32,16 @@ def oracle_values(d, pt):
     return out
 
 
-def run_model(pm, d, pt):
+def run_model_object(pm, d, pt):
     conv = int if pt.get("ints") else float     # "ints": every value is a (large) Python int
     st = pm.State(**{k: conv(v) for k, v in pt["state"].items()})
     ct = pm.Control(**{k: conv(v) for k, v in pt["control"].items()})
     with fk.quiet():
-        return fk.by_name(pm.model(float(pt["dt"]), st, ct))
+        return pm.model(float(pt["dt"]), st, ct)
+
+
+def run_model(pm, d, pt):
+    return fk.by_name(run_model_object(pm, d, pt))
 
 
 def pt_json(pt):
@@ -85,6 +89,7 @@ def check_definition(ctx, drv, d, points, pending, stream):
                 pending.append(("checkprog", idx, {"def": d.describe(), "cse": cse, "prog": str(prog)}))
             except gen.Untranslatable as e:
                 ctx.count("untranslatable_block")
+        held = []
         for pt in points:
             # calibration is frozen at compile time: all points of a definition share it
             pt = dict(pt, cal=points[0]["cal"])
@@ -94,7 +99,9 @@ def check_definition(ctx, drv, d, points, pending, stream):
             ctx.count(f"states={len(d.state)}"); ctx.count(f"controls={len(d.control)}"); ctx.count(f"calib={len(d.calibration)}")
             ctx.count(f"cse={cse}"); ctx.count(f"stream={stream}"); ctx.count(f"prefix_len={min(len(prog['pre']), 5)}")
             try:
-                got = run_model(pm, d, pt)
+                obj = run_model_object(pm, d, pt)
+                got = fk.by_name(obj)
+                held.append((obj, dict(got), case))
             except Exception as e:
                 ctx.fail(f"model-call-raises:{fk.exc_kind(e)}", f"compiled model call raises {e!r}"[:300], case)
                 continue
@@ -110,6 +117,12 @@ def check_definition(ctx, drv, d, points, pending, stream):
                         "control": [[k, enc(v)] for k, v in pt["control"].items()]})
             idx = drv.add(req)
             pending.append(("pyrun", idx, dict(case, got=got, rational=rational)))
+        # a result handed out earlier is still what it was after the later evaluations (results are values, not views of a buffer)
+        for obj, first, case in held:
+            if fk.by_name(obj) != first:
+                ctx.fail("model-result-overwritten", "a state returned by an earlier call of the compiled model changed when the model was "
+                         f"called again: was {first}, now reads {fk.by_name(obj)}", case)
+                break
 
 
 def settle(ctx, answers, pending):
@@ -164,6 +177,42 @@ def role_swap_pairs(ctx, drv, pending):
             check_definition(ctx, drv, dd, pp, pending, "role-swap")
 
 
+def flag_variants(ctx):
+    """the optional switches do not change what is computed: `proactive_simplify=True` on the model (update entries declared in
+    non-alphabetical order), `extra_validation=True` in the configuration, at points that include very small magnitudes (products
+    and exponentials that underflow to 0 / subnormals are still finite, well-defined values)"""
+    from formak import python
+    from fractions import Fraction as Fr
+    for i in range(3 if ctx.quick else 20):
+        names = sorted(gen.fresh_names(ctx.rng, 4), reverse=True)        # declared in reverse-sorted order
+        x, w, v, u = (sympy.Symbol(n) for n in names)
+        dt = sympy.Symbol("dt")
+        sm = {x: x + w * w * x + sympy.Rational(1, 3) * v, w: w / 2 + u * dt, v: v * sympy.exp(-v * v) + dt * x}
+        d = gen.Definition(dt, [x, w, v], [u], [], sm, {}, transcend=True)
+        core.set_tolerance(True)
+        for simp, ev, cse in ((True, False, True), (False, True, True), (True, True, False)):
+            case0 = {"def": d.describe(), "proactive_simplify": simp, "extra_validation": ev, "cse": cse, "stream": "flag-variants"}
+            try:
+                with fk.quiet():
+                    m = fk.ui_model(d, None, ctx.rng.choice(["set", "list"]), **({"proactive_simplify": True} if simp else {}))
+                    pm = python.compile(m, config={"common_subexpression_elimination": cse, "extra_validation": ev})
+            except Exception as e:
+                ctx.fail(f"compile-raises:{fk.exc_kind(e)}", f"python.compile refuses a valid definition: {e!r}"[:300], case0); continue
+            for vals in ((Fr(3, 2), Fr(1, 10 ** 160), Fr(30), Fr(1, 4)), (Fr(-9, 4), Fr(1, 2), Fr(1), Fr(2)), (Fr(1, 10 ** 200), Fr(5, 4), Fr(-28), Fr(0))):
+                pt = {"dt": Fr(1, 8), "cal": {}, "state": {x.name: vals[0], w.name: vals[1], v.name: vals[2]}, "control": {u.name: vals[3]}}
+                case = dict(case0, point=pt_json(pt))
+                ctx.case(case, True); ctx.count("stream=flag-variants")
+                try:
+                    got = run_model(pm, d, pt)
+                except Exception as e:
+                    ctx.fail(f"model-call-raises:{fk.exc_kind(e)}:flag-variants", f"compiled model call raises {e!r}"[:300], case); continue
+                want = oracle_values(d, pt)
+                bad = [n for n in want if not core.close(got.get(n, float("nan")), want[n], scale=max(map(abs, want.values())))]
+                if bad:
+                    ctx.fail("model-value:flag-variants", f"state {bad[0]}: compiled model returns {got.get(bad[0])}, symbolic expression evaluates to {float(want[bad[0]])}",
+                             dict(case, got=got))
+
+
 def run(ctx):
     audit = core.lean_audit("C01")
     drv = core.Driver()
@@ -185,7 +234,10 @@ def run(ctx):
             big["control"] = {k: _F(v) for k, v in big["control"].items()}
             points.append(big)
         check_definition(ctx, drv, d, points, pending, "transcendental" if transcend else "rational")
+    big = gen.many_temporaries_definition(ctx.rng, n=12)
+    check_definition(ctx, drv, big, [gen.gen_point(ctx.rng, big) for _ in range(2)], pending, "many-temporaries")
     role_swap_pairs(ctx, drv, pending)
+    flag_variants(ctx)
     settle(ctx, drv.run(), pending)
     return core.finish(ctx, audit, NOTE, RULE, PARTIAL)
 
